@@ -740,6 +740,19 @@ func binWellformed(o corrOpts, sum *res.Summary, r *rng.R, bin string) {
 			}
 		}
 	}
+	// an exclude-paths entry anchored with separators that names a directory directly below the module root
+	{
+		alt := runStandalone(bin, dir, []string{"-config.exclude-paths=testdata,/k0/"}, nil)
+		for _, d := range alt.diags {
+			sum.Evaluations++
+			sum.Count("anchored-entry-diagnostics")
+			if strings.HasPrefix(d.File, "k0/") {
+				sum.Disagree(res.Disagreement{Kind: "impl-vs-spec", Input: fmt.Sprintf("wellformed seed=%d [exclude-paths=testdata,/k0/] %s", o.seed, d.key()), Impl: d.File, Model: "a non-excluded file",
+					Clause: "C17: every diagnostic is positioned inside a non-excluded file of the package being analysed"})
+				break
+			}
+		}
+	}
 	// exit status in text mode
 	for _, sub := range []string{"./...", "./impl", "./d"} {
 		cmd := exec.Command(bin, sub)
@@ -1162,6 +1175,20 @@ type Node struct {
 	Back map[*Node]*Node
 	Ring Ring
 }
+
+// a general (constraint) interface with a type element, named by an @implements annotation
+type Num interface {
+	~int | ~int64
+	String() string
+}
+
+// @implements Num
+type MyNum int
+
+func (MyNum) String() string { return "n" }
+
+// @implements &Num
+type NotNum struct{ V int }
 
 type Gen[T any] struct{ V T }
 
